@@ -301,9 +301,11 @@ def run(rep):
                        "sampling rate, sample width, channels enumerated constants"]
     rep.outside = ["time bounds that are not rationals with a denominator in the stated set", "IEEE rounding of t*rate"]
     kinds = [("int", "int"), ("int", "none"), ("none", "int"), ("none", "none")]
-    for (sw, ch) in byt.fmts(tier):
+    # bound kinds outermost so that every format is met early (a change that breaks multichannel data only is then found within
+    # the first harnesses even if each of them runs into its deadline)
+    for ak_, bk in kinds:
         for sr in byt.rates(tier)[:2 if tier == "quick" else None]:
-            for ak_, bk in kinds:
+            for (sw, ch) in byt.fmts(tier):
                 hn = "samples[sw=%d,ch=%d,sr=%d,%s:%s]" % (sw, ch, sr, ak_, bk)
                 ex = explore(sample_harness(core, sw, ch, sr, ak_, bk), workers=4)
                 rep.add_exploration(hn, ex)
